@@ -627,6 +627,21 @@ def c12_task(task):
                 if len(viol) < 8:
                     viol.append(dict(what='compile(decompile(b)) != b for %s output' % origin, bytes=b.hex()[:300],
                                      listing=val[:10], back=(back.hex()[:300] if isinstance(back, bytes) else back)))
+            # the same text through the model of the real front end (theorem C12_listing_text_compiles is about compile_text)
+            text = '\n'.join(val)
+            if len(text) < 20000 and (origin == 'builder' or rng.random() < 0.3):
+                mm = model.cmd('CTXT ' + (text.encode().hex() or '-')).split(' ')
+                if len(mm) > 1 and mm[1] != 'unm':
+                    want = 'ok:' + tsh.hx(b)
+                    if mm[1] == want or (mm[1].startswith('ok:') and mm[1][3:].replace('-', '') == want[3:].replace('-', '')):
+                        stats['listing-text:compile_text agrees'] += 1
+                    else:
+                        stats['differ'] += 1
+                        if len(dis) < 5:
+                            dis.append(dict(stream='compile_text (model) on the text of the decompiler listing', bytes=b.hex()[:300],
+                                            model=mm[1][:300], listing=val[:10], origin=origin))
+                else:
+                    stats['listing-text:unm'] += 1
     # exhaustive short strings
     if seed % 1000003 == 0 or True:
         pass
